@@ -7,7 +7,6 @@ mod util;
 
 use mc::report::{load_replay, run_replay, ReplayFile};
 use mc::{Bounds, Known, Report, RunStats};
-use rayon::prelude::*;
 use util::H0;
 
 /// one configuration of one of the five model types, with its depth bound
@@ -392,7 +391,7 @@ fn run(prop: &str, tier: &str) -> i32 {
         }
     }
     let seed = mc::report::seed();
-    let runs: Vec<RunStats> = js.par_iter().map(|j| j.run(&known, thorough, seed)).collect();
+    let runs: Vec<RunStats> = mc::run_pooled(js.len(), |i| js[i].run(&known, thorough, seed));
     rep.runs = runs;
     rep.finish()
 }
